@@ -48,8 +48,26 @@ func runPool(t *testing.T, scAny any, trace bool) *Outcome {
 			return
 		}
 		pool := absnfs.VerifWorkerPool(nfs)
-		var running, bound, nextID simrt.Counter
-		bound.Store(int64(sc.Workers))
+		var running, nextID simrt.Counter
+		// The bound: the pool's configured size, or - while some Resize is in progress - the largest of the sizes
+		// before and after any Resize that has been called and has not returned yet. (Resizes by several actors
+		// take effect in the order the pool serialises them, which need not be the order in which they return.)
+		inOld := make([]simrt.Counter, len(sc.Actors))
+		inNew := make([]simrt.Counter, len(sc.Actors))
+		var settled simrt.Counter
+		settled.Store(int64(sc.Workers))
+		boundNow := func() int64 {
+			b := settled.Load()
+			for i := range inOld {
+				if v := inOld[i].Load(); v > b {
+					b = v
+				}
+				if v := inNew[i].Load(); v > b {
+					b = v
+				}
+			}
+			return b
+		}
 		newTask := func(kind string, workUs int) (*taskRec, func() interface{}) {
 			rec := &taskRec{id: nextID.Add(1), kind: kind}
 			led.add(rec)
@@ -62,7 +80,7 @@ func runPool(t *testing.T, scAny any, trace bool) *Outcome {
 				inPool := contains(simrt.SelfID(), "worker_pool.go") // executed by a worker goroutine (not by the caller itself)
 				if inPool {
 					r := running.Add(1)
-					if b := bound.Load(); r > b {
+					if b := boundNow(); r > b {
 						simrt.Probe("concurrency_above_bound_candidate")
 						o.Vio("C20.concurrency-exceeds-pool-size", "after="+lastAdmin.Load(), "%d tasks executing concurrently, pool size bound %d", r, b)
 					}
@@ -128,20 +146,21 @@ func runPool(t *testing.T, scAny any, trace bool) *Outcome {
 						pool.Start()
 						lastAdmin.Store("Start")
 					case "resize":
-						_, cur, _ := 0, 0, 0
-						old := bound.Load()
 						n := int64(op.N)
 						if n <= 0 {
 							n = 1
 						}
-						if n > old {
-							bound.Store(n)
-						}
+						before, _, _ := pool.Stats()
+						inOld[ai].Store(int64(before))
+						inNew[ai].Store(n)
 						lastAdmin.Store("Resize")
 						simrt.Event("actor %d Resize %d", ai, op.N)
 						pool.Resize(op.N)
-						bound.Store(n)
-						_ = cur
+						// what is configured now (another actor's Resize may have come after this one inside the pool)
+						after, _, _ := pool.Stats()
+						settled.Store(int64(after))
+						inOld[ai].Store(0)
+						inNew[ai].Store(0)
 					}
 				}
 			})
